@@ -888,3 +888,73 @@ def _with_inlined_record(fn):
 for _r in RULES.get("C05", []):
     if _r.id == "C05.R2":
         _r.fn = _with_inlined_record(_r.fn)
+
+
+# ------------------------------------------------------------------------------------------ round-6 micro rules on the normaliser and the datatype helpers
+def normaliser_micro(ctx: Ctx, rule):
+    """(a) The normaliser walks *all* the attributes it is given: its loop has no `break` (the same-value arm `continue`s).
+    (b) parse_boolean implements the lexical space of xsd:boolean: {true, 1} and {false, 0}.
+    (c) The literal converter *uses* the re-homed datatype: the Literal it rebuilds takes the name valid_qualified_name returned."""
+    res = RuleResult()
+    norm_q, norm_sites, mm = find_normaliser(ctx)
+    from ..inline import inlined_function
+
+    nf = inlined_function(ctx, norm_q, exclude=frozenset({"_auto_literal_conversion"}))
+    loops = [l for l in walk_function(nf.node) if isinstance(l, ast.For) and any(isinstance(x, ast.Attribute) and x.attr == mm for b in l.body for x in ast.walk(b))]
+    if not loops:
+        raise AnalysisError("the attribute loop of %s was not found" % short(norm_q))
+    for l in loops:
+        brk = [b for st in l.body for b in ast.walk(st) if isinstance(b, ast.Break)]
+        # a break inside a nested loop belongs to that loop
+        nested = [x for st in l.body for x in ast.walk(st) if isinstance(x, (ast.For, ast.While))]
+        brk = [b for b in brk if not any(b in list(ast.walk(nl)) for nl in nested)]
+        res.ob("%s: the attribute loop processes every pair it is given (no break): %s" % (short(norm_q), not brk))
+        for b in brk:
+            res.fail(rule.id, "normaliser-loop-left-early", ctx.loc(norm_q, b), "%s leaves its attribute loop with `break`: the pairs after that point are silently dropped" % short(norm_q),
+                     "add_attributes([(prov:activity, same-as-before), (prov:role, r)]): the role is not stored; unified() of two agreeing generations loses time and role of the second")
+    # (b)
+    pq = M + ".parse_boolean"
+    if pq in ctx.p.functions:
+        pf = ctx.fn(pq)
+        arms = {}
+        for n in walk_function(pf.node):
+            if isinstance(n, ast.If) and isinstance(n.test, ast.Compare) and isinstance(n.test.ops[0], ast.In):
+                try:
+                    v = ctx.eval_in(pq, n.test.comparators[0])
+                except AnalysisError:
+                    v = None
+                ret = next((r.value.value for r in n.body if isinstance(r, ast.Return) and isinstance(r.value, ast.Constant)), "?")
+                if isinstance(v, (tuple, list, set, frozenset)):
+                    arms[ret] = set(v)
+        want = {True: {"true", "1"}, False: {"false", "0"}}
+        for k, w in want.items():
+            okb = arms.get(k) == w
+            res.ob("parse_boolean: lexical forms of %s are %s: %s" % (k, sorted(arms.get(k, [])), okb))
+            if not okb:
+                res.fail(rule.id, "boolean-lexical-space::%s" % k, ctx.loc(pq, pf.node), "parse_boolean recognises %s as the lexical forms of %s (xsd:boolean: %s)" % (sorted(arms.get(k, [])), k, sorted(w)),
+                         "Literal('1', xsd:boolean) stays a Literal instead of being stored as True")
+    else:
+        raise AnalysisError("anchor vanished: function %s" % pq)
+    # (c)
+    cq = M + ".ProvRecord._auto_literal_conversion"
+    for q2 in ctx.helper_closure(cq, 2):
+        fi = ctx.fn(q2)
+        for a in walk_function(fi.node):
+            if isinstance(a, ast.Assign) and len(a.targets) == 1 and isinstance(a.targets[0], ast.Name) and isinstance(a.value, ast.Call) and call_name(a.value) == "valid_qualified_name" and a.value.args:
+                src = resolve_local(fi.node, a.value.args[0])
+                if not (isinstance(src, ast.Attribute) and ctx.canon_field(M + ".Literal", src.attr) == "datatype"):
+                    continue
+                homed = a.targets[0].id
+                ctors = [c for c in calls_in(fi.node) if (ctx.p.resolve_dotted(fi.module, c.func) or (None, None))[1] == M + ".Literal"]
+                uses = [c for c in ctors if any(isinstance(x, ast.Name) and x.id == homed for arg in list(c.args) + [k.value for k in c.keywords] for x in ast.walk(arg))]
+                res.ob("%s: the Literal rebuilt after homing its datatype takes the homed name `%s`: %s" % (short(q2), homed, bool(uses) or not ctors))
+                if ctors and not uses:
+                    res.fail(rule.id, "homed-datatype-unused", ctx.loc(q2, ctors[0]), "%s homes the datatype into `%s` but rebuilds the Literal with another name (%s)" % (short(q2), homed, norm(ctors[0])[:60]),
+                             "a datatype ex:metre whose prefix ex is bound to another URI in the document: it is registered as ex_1 but written as ex:metre, and reloads with the document's URI for ex")
+    return res
+
+
+for _p, _r, _d in (("C05", "C05.R15", "every supplied attribute is stored; xsd:boolean lexicals are parsed; a kept Literal carries the homed datatype"),
+                   ("C08", "C08.R14", "merging processes every attribute of every record"), ("C01", "C01.R16", "a kept Literal's datatype is written under a prefix its container declares for it")):
+    RULES.setdefault(_p, []).append(Rule(_r, "the normaliser processes every pair (no break); parse_boolean covers {true,1}/{false,0}; the rebuilt Literal uses the homed datatype", 4, normaliser_micro, "F-PATH", _d))
+
